@@ -120,4 +120,308 @@ theorem tls13_full_instance (hus : ∀ e ∈ evs13.map CEv.cap, e.us < 2 ^ 64) :
   rw [hexp] at h
   exact h
 
+/-! ### TLS 1.2 with `-a -c -m 443:9443` over IPv6 with extension headers -/
+
+section V6
+open TLX.Spec.Rfc1071 (ocSum pseudoWords words)
+
+def ip6c : Bytes := [0x20, 0x01, 0x0d, 0xb8, 0, 0, 0, 0, 0, 0, 0, 0, 0, 0, 0, 1]
+def ip6s : Bytes := [0x20, 0x01, 0x0d, 0xb8, 0, 0, 0, 0, 0, 0, 0, 0, 0, 0, 0, 2]
+def fl6 : Flow := ⟨true, ip6c, 5555, ip6s, 443⟩
+
+/-- the TCP checksum a sender computes (RFC 9293 §3.1 over the RFC 8200 §8.1 pseudo-header): the one's complement of the
+    one's-complement sum with the field zero -/
+def csumFor (src dst : Bytes) (t : Tcp) : Nat :=
+  0xFFFF - ocSum (pseudoWords true src dst .tcp t.encode.length ++ words t.encode)
+
+def tcp6 (d : Bool) (seq : Nat) (pl : Bytes) : Tcp :=
+  { tcpOf d seq pl with csum := csumFor (if d then ip6s else ip6c) (if d then ip6c else ip6s) (tcpOf d seq pl) }
+
+/-- hop-by-hop options (one PadN of six octets), routing (type 0, no segments left), fragment (offset 0, M = 0) -/
+def exts6 : List Ext := [.hopByHop [.opt 1 [0, 0, 0, 0]], .routing 0 0 [0, 0, 0, 0], .fragment 7 false]
+
+def frame6 (d : Bool) (seq : Nat) (pl : Bytes) : Spec.FrameBuild.Frame :=
+  ⟨if d then cMac else sMac, if d then sMac else cMac,
+   .v6 ⟨0, 5, 64, if d then ip6s else ip6c, if d then ip6c else ip6s, exts6⟩, .tcp (tcp6 d seq pl), []⟩
+
+theorem isSegX_mk6 (d : Bool) (seq : Nat) (pl : Bytes) (hs : seq < 4294967296) (hp : pl.length < 60000) :
+    IsSegX fl6 d (frame6 d seq pl) (tcp6 d seq pl) := by
+  cases d <;>
+    simp [IsSegX, Frame.WF, Upper.WF, Tcp.WF, V6.WF, Ext.WF, Opt6.WF, frame6, tcp6, tcpOf, exts6, encChain, Ext.encode,
+      Ext.proto, encOpts, Opt6.encode, Upper.encode, Upper.proto, Tcp.encode, Tcp.header, be2, be4, fl6, fragFirst, fragLast,
+      cMac, sMac, ip6c, ip6s] <;> omega
+
+def segEvs6 : Nat → List (Bool × Bytes × Nat) → List CEv
+  | _, [] => []
+  | n, (d, pl, off) :: rest =>
+    .seg (timeAt n) d (frame6 d ((isnOf d + off) % 4294967296) pl) (tcp6 d ((isnOf d + off) % 4294967296) pl) ::
+      segEvs6 (n + 1) rest
+
+/-- every data segment carries a valid TCP checksum (decidable: `Spec.Rfc1071.verdict`) -/
+def csumsOk (evs : List CEv) : Bool :=
+  evs.all fun
+    | .seg _ _ fr t => t.payload.isEmpty || decide (CsumValid fr t)
+    | .foreign _ => true
+
+theorem segEvs6_describedX (l : List (Bool × Bytes × Nat)) (h : ∀ x ∈ l, x.2.1.length < 60000) (n : Nat)
+    (hc : csumsOk (segEvs6 n l) = true) : DescribedX fl6 true (segEvs6 n l) := by
+  induction l generalizing n with
+  | nil => intro ev hev; cases hev
+  | cons x rest ih =>
+    obtain ⟨d, pl, off⟩ := x
+    simp only [segEvs6, csumsOk, List.all_cons, Bool.and_eq_true] at hc
+    intro ev hev
+    simp only [segEvs6, List.mem_cons] at hev
+    rcases hev with rfl | hev
+    · refine ⟨isSegX_mk6 d _ pl (Nat.mod_lt _ (by decide)) (h (d, pl, off) (by simp)), fun _ hpl => ?_⟩
+      have := hc.1
+      simp only [Bool.or_eq_true, decide_eq_true_eq, List.isEmpty_iff] at this
+      rcases this with h0 | h0
+      · exact absurd h0 hpl
+      · exact h0
+    · exact ih (fun y hy => h y (by simp [hy])) (n + 1) hc.2 ev hev
+
+/-- a TCP segment of ANOTHER flow (10.0.0.9:7777 → 10.0.0.2:443 over IPv4) whose checksum field is zero: wrong -/
+def badTcpT : Tcp := ⟨7777, 443, 5, 0, 0x18, 0, 8192, 0, 0, [], [1, 2, 3]⟩
+def badFr : Spec.FrameBuild.Frame :=
+  ⟨sMac, cMac, .v4 ⟨0, 1, true, false, 64, 0, [10, 0, 0, 9], [10, 0, 0, 2], []⟩, .tcp badTcpT, []⟩
+def badTcp : CapEv := ⟨timeAt 1, badFr.encode, viewOf badFr⟩
+def flBad : Flow := ⟨false, [10, 0, 0, 9], 7777, [10, 0, 0, 2], 443⟩
+
+theorem badSeg : IsSegX flBad false badFr badTcpT := by
+  simp [IsSegX, Frame.WF, Upper.WF, Tcp.WF, V4.WF, badFr, badTcpT, Upper.encode, Tcp.encode, Tcp.header, be2, be4, flBad,
+    cMac, sMac]
+
+theorem badTcp_foreignC : ForeignC fl6 true badTcp := by
+  refine ⟨⟨dissect_segX flBad false badFr badTcpT badSeg, ?_⟩, fun _ x hx => ⟨_, verdict_segX flBad false badFr badTcpT badSeg x hx⟩⟩
+  intro tag _ _
+  show sameFlow (refPkt fl6) (pktOf tag (viewOf badFr)) = false
+  rw [pktOf_segX flBad false badFr badTcpT badSeg tag]
+  simp [sameFlow, refPkt, clientEp, serverEp, fl6, flBad, ip6c, ip6s]
+
+/-- with `-c` the main loop ignores it: the RFC 1071 receiver rejects the segment -/
+theorem badTcp_ignored (o : Opts) (hc : o.checksumTest = true) : IgnoredC o badTcp := by
+  intro tag
+  have hb : csumBit true badTcp.d = false := by decide +kernel
+  refine ⟨.badCsumTcp, ?_⟩
+  have hp : pktOfC o.checksumTest tag badTcp.d =
+      ⟨.tcp, clientEp flBad, serverEp flBad, [1, 2, 3], false, tag⟩ := by
+    rw [hc]
+    simp only [pktOfC, hb]
+    show { pktOf tag (viewOf badFr) with csumOk := false } = _
+    rw [pktOf_segX flBad false badFr badTcpT badSeg tag]
+    rfl
+  rw [hp]
+  simp [classify, hc]
+
+/-- the capture: an ARP request, the foreign segment with the wrong checksum, then the connection (`cap0`) -/
+def evs6 : List CEv := .foreign arp :: .foreign badTcp :: segEvs6 2 cap0
+
+theorem described6 : DescribedX fl6 true evs6 := by
+  intro ev hev
+  simp only [evs6, List.mem_cons] at hev
+  rcases hev with rfl | rfl | hev
+  · exact ⟨⟨arp_foreign.1, fun tag h => by simp [arp, pktOf, Ingest.otherPkt] at h⟩, fun _ x hx => by simp [arp] at hx⟩
+  · exact badTcp_foreignC
+  · exact segEvs6_describedX cap0 (by decide +kernel) 2 (by decide +kernel) ev hev
+
+theorem segEvs6_times (l : List (Bool × Bytes × Nat)) (n : Nat) :
+    ∀ e ∈ (segEvs6 n l).map CEv.cap, Ingest.isMinusOne e.t = false := by
+  induction l generalizing n with
+  | nil => intro e he; cases he
+  | cons x rest ih =>
+    obtain ⟨d, pl, off⟩ := x
+    intro e he
+    simp only [segEvs6, List.map_cons, List.mem_cons] at he
+    rcases he with rfl | he
+    · exact notMinusOne n
+    · exact ih (n + 1) e he
+
+theorem times6 : ∀ e ∈ evs6.map CEv.cap, Ingest.isMinusOne e.t = false := by
+  intro e he
+  simp only [evs6, List.map_cons, List.mem_cons] at he
+  rcases he with rfl | rfl | he
+  · exact notMinusOne 0
+  · exact notMinusOne 1
+  · exact segEvs6_times cap0 2 e he
+
+theorem frame6_length (d : Bool) (seq : Nat) (pl : Bytes) : (frame6 d seq pl).encode.length = 98 + pl.length := by
+  cases d <;>
+    simp [frame6, tcp6, tcpOf, exts6, Frame.encode, Frame.etherType, Frame.datagram, V6.encode, V6.fixed, encChain,
+      Ext.encode, Ext.proto, encOpts, Opt6.encode, Upper.encode, Upper.proto, Tcp.encode, Tcp.header, be2, be4, cMac, sMac,
+      ip6c, ip6s] <;> omega
+
+theorem segEvs6_bounds (l : List (Bool × Bytes × Nat)) (h : ∀ x ∈ l, x.2.1.length < 60000) (n : Nat) :
+    ∀ e ∈ (segEvs6 n l).map CEv.cap, ∃ k, k < n + l.length ∧ e.t = timeAt k ∧ e.buf.length < 70000 := by
+  induction l generalizing n with
+  | nil => intro e he; cases he
+  | cons x rest ih =>
+    obtain ⟨d, pl, off⟩ := x
+    intro e he
+    simp only [segEvs6, List.map_cons, List.mem_cons] at he
+    rcases he with rfl | he
+    · refine ⟨n, by simp, rfl, ?_⟩
+      have := h (d, pl, off) (by simp)
+      simp only [CEv.cap, frame6_length]
+      simp only at this
+      omega
+    · obtain ⟨k, hk, h1, h2⟩ := ih (fun y hy => h y (by simp [hy])) (n + 1) e he
+      exact ⟨k, by simp only [List.length_cons]; omega, h1, h2⟩
+
+def cevs6 : List Spec.Containers.Ev := (evs6.map CEv.cap).map cevOf
+
+theorem evs6_bounds (c : CEv) (hc : c ∈ evs6) : ∃ k, k < 100 ∧ (CEv.cap c).t = timeAt k ∧ (CEv.cap c).buf.length < 70000 := by
+  simp only [evs6, List.mem_cons] at hc
+  rcases hc with rfl | rfl | hc
+  · exact ⟨0, by decide, rfl, by decide⟩
+  · exact ⟨1, by decide, rfl, by decide +kernel⟩
+  · obtain ⟨k, hk, h1, h2⟩ := segEvs6_bounds cap0 (by decide +kernel) 2 _ (List.mem_map.mpr ⟨c, hc, rfl⟩)
+    exact ⟨k, by have : cap0.length = 10 := rfl; omega, h1, h2⟩
+
+theorem cwf6 : cv0.WF cevs6 := by
+  refine ⟨by decide, by decide, by decide, by decide, by decide, legacy_wf _ _ rfl ?_ 0⟩
+  intro ev hev
+  simp only [cevs6, List.mem_map] at hev
+  obtain ⟨e, ⟨c, hc, rfl⟩, rfl⟩ := hev
+  obtain ⟨k, hk, ht, hl⟩ := evs6_bounds c hc
+  refine ⟨_, _, rfl, ?_, by omega⟩
+  rw [ht]
+  simp only [timeAt, Spec.Containers.LegacyVariant.unitsPerSecond, if_true]
+  have : ((1700000000 : Int).toNat * 10 ^ 9 + (1000 + k)) / 10 ^ 9 = 1700000000 := by
+    have : (1700000000 : Int).toNat = 1700000000 := rfl
+    rw [this]; omega
+  rw [this]; decide
+
+theorem items6 : cevs6.filterMap (Spec.Containers.scale cv0) = (evs6.map CEv.cap).map CapEv.item := by
+  unfold cevs6
+  apply filterMap_map_some
+  intro e he
+  simp only [List.mem_map] at he
+  obtain ⟨c, hc, rfl⟩ := he
+  obtain ⟨k, hk, ht, _⟩ := evs6_bounds c hc
+  exact scale_cev _ k hk ht
+
+/-- `-a -c -m 443:9443` -/
+def args6 : Args := ⟨none, some ["443:9443".toList.map (·.toNat)], true, false, true⟩
+def pm6 : List (Int × Int) := [(443, 9443)]
+theorem hpm6 : Options.getPortMap Options.Src.bare args6.mArg = .ok pm6 := by decide +kernel
+
+def pkts6 : List Pkt := flowPkts fl6 0 evs6
+def p60 : Pkt := ⟨.tcp, ⟨ip6c, 5555⟩, ⟨ip6s, 443⟩, (rC 0).take 20, true, 2⟩
+theorem fp6 : flowPkts fl6 0 evs6 = p60 :: pkts6.tail := by decide +kernel
+
+def sess6 : Pipeline.Conn := sessionOf (evs6.map CEv.cap) (optsOf args6 ports0 pm6) p60 pkts6.tail
+
+theorem wires6 : WiresInOrder evs6 (t0.stream Cipher.Toy.prims Cipher.Toy.laws cls0 (legacySnd k0)) := by
+  intro d
+  cases d
+  · refine ⟨⟨isnOf false, ?_⟩, by decide +kernel⟩
+    have hcut : IsCut (t0.stream Cipher.Toy.prims Cipher.Toy.laws cls0 (legacySnd k0) false) (chunksOf false) :=
+      ⟨by decide +kernel, by decide +kernel⟩
+    have h := Delivers.cut (k := 0) (isn := isnOf false) (chunksOf false) hcut
+    have hd := Delivers.dup (k := 0) (isn := isnOf false)
+      ((segsOf (isnOf false) 0 (chunksOf false)).take 3) [] ((segsOf (isnOf false) 0 (chunksOf false)).drop 4)
+      ((segsOf (isnOf false) 0 (chunksOf false)).getD 3 (0, []))
+      (by
+        have e : (segsOf (isnOf false) 0 (chunksOf false)).take 3 ++
+            (segsOf (isnOf false) 0 (chunksOf false)).getD 3 (0, []) ::
+              ([] ++ (segsOf (isnOf false) 0 (chunksOf false)).drop 4) = segsOf (isnOf false) 0 (chunksOf false) := by
+          decide +kernel
+        rw [e]; exact h)
+    have e2 : dirWires false evs6 =
+        (segsOf (isnOf false) 0 (chunksOf false)).take 3 ++
+          (segsOf (isnOf false) 0 (chunksOf false)).getD 3 (0, []) ::
+            ([] ++ (segsOf (isnOf false) 0 (chunksOf false)).getD 3 (0, []) ::
+              (segsOf (isnOf false) 0 (chunksOf false)).drop 4) := by decide +kernel
+    unfold InOrder
+    rw [e2]; exact hd
+  · refine ⟨⟨isnOf true, ?_⟩, by decide +kernel⟩
+    have hcut : IsCut (t0.stream Cipher.Toy.prims Cipher.Toy.laws cls0 (legacySnd k0) true) (chunksOf true) :=
+      ⟨by decide +kernel, by decide +kernel⟩
+    have e2 : dirWires true evs6 = segsOf (isnOf true) 0 (chunksOf true) := by decide +kernel
+    unfold InOrder
+    rw [e2]; exact Delivers.cut _ hcut
+
+theorem foreign6 (e : CapEv) (he : CEv.foreign e ∈ evs6) : e = arp ∨ e = badTcp := by
+  simp only [evs6, List.mem_cons] at he
+  rcases he with he | he | he
+  · cases he; exact .inl rfl
+  · cases he; exact .inr rfl
+  · exfalso
+    have : ∀ (l : List (Bool × Bytes × Nat)) (n : Nat), CEv.foreign e ∉ segEvs6 n l := by
+      intro l
+      induction l with
+      | nil => intro n h; cases h
+      | cons x xs ih =>
+        obtain ⟨d, pl, off⟩ := x
+        intro n h
+        simp only [segEvs6, List.mem_cons] at h
+        rcases h with h | h
+        · cases h
+        · exact ih (n + 1) h
+    exact this _ _ he
+
+/-- **Non-vacuity of `tls12_capture_exact_full`**: `-a -c -m 443:9443`, IPv6 with three extension headers per segment, valid
+    TCP checksums on the connection, a foreign segment with a wrong one. -/
+theorem tls12_full_instance (hus : ∀ e ∈ evs6.map CEv.cap, e.us < 2 ^ 64) :
+    ∃ f, exportFile (fun _ _ _ => none) hashes Cipher.Toy.prims args6 cv0.isLegacy (some (C09Found.fileText ls0))
+        (Spec.Containers.encode cv0 cevs6) = .file f ∧
+      Exact f sess6 (expect12 true Cipher.Toy.prims Cipher.Toy.laws cls0 t0 (legacySnd k0)).1
+        (expect12 true Cipher.Toy.prims Cipher.Toy.laws cls0 t0 (legacySnd k0)).2 := by
+  have htr : tr0 = ⟨labelClientRandom, Pipeline.natsOfBytes t0.ch.random, Pipeline.natsOfBytes ms0⟩ := by decide +kernel
+  have hl1 : HasLine ls0 labelClientRandom (Pipeline.natsOfBytes t0.ch.random) (Pipeline.natsOfBytes ms0) :=
+    ⟨hcU, Keylog.hexOf (List.replicate 48 5), true, by rw [← htr]; simp [ls0]⟩
+  have ho1 : OnlySecret ls0 labelClientRandom (Pipeline.natsOfBytes t0.ch.random) (Pipeline.natsOfBytes ms0) := by
+    intro tr hc hv crlf hm _ _
+    simp only [ls0, List.mem_cons, List.mem_nil_iff, or_false, Prod.mk.injEq] at hm
+    rcases hm with ⟨h, _⟩ | ⟨h, _⟩ | ⟨h, _⟩
+    · cases h
+    · cases h; decide +kernel
+    · cases h
+  have hsc : Script12 t0.cEvs := ⟨[[16, 0, 0, 2, 9, 9]], _, rfl, by decide, by
+    intro e he
+    simp only [List.mem_cons, List.mem_nil_iff, or_false] at he
+    rcases he with rfl | rfl | rfl <;> exact ⟨_, _, _, rfl, by decide⟩⟩
+  have hss : Script12 t0.sEvs := ⟨[[11, 0, 0, 3, 1, 2, 3, 14, 0, 0, 0]], _, rfl, by decide, by
+    intro e he
+    simp only [List.mem_cons, List.mem_nil_iff, or_false] at he
+    rcases he with rfl | rfl <;> exact ⟨_, _, _, rfl, by decide⟩⟩
+  have hokc : ∀ e ∈ t0.cEvs, EvOk1 cls0 (sp0.hash.suite hashes).outLen e := by decide +kernel
+  have hoks : ∀ e ∈ t0.sEvs, EvOk1 cls0 (sp0.hash.suite hashes).outLen e := by decide +kernel
+  have hwr : ∀ d, ∀ r ∈ t0.records Cipher.Toy.prims Cipher.Toy.laws cls0
+      (snd12 hashes .tls12 sp0 ms0 t0.ch.random t0.sh.random) d, WholeRecord r := by
+    rw [snd12_0]; intro d; cases d <;> decide +kernel
+  have hdesc : DescribedX fl6 args6.checksumTest evs6 := described6
+  obtain ⟨_, hcand, _, _, _⟩ := described_session_x fl6 (by decide) evs6 (optsOf args6 ports0 pm6) hdesc
+    (by decide +kernel) (by decide +kernel) p60 pkts6.tail fp6
+  have hrec : RecordsFit hashes Cipher.Toy.prims (capInfo (evs6.map CEv.cap)) sess6
+      ((fileKeysOf (some (C09Found.fileText ls0))).getD []) := by
+    unfold RecordsFit sessTraffic; decide +kernel
+  have hc13 : Causal13 (connRecs (capInfo (evs6.map CEv.cap)) sess6) :=
+    ⟨(connRecs (capInfo (evs6.map CEv.cap)) sess6).headD (⟨[], []⟩, false),
+      ((connRecs (capInfo (evs6.map CEv.cap)) sess6).drop 1).headD (⟨[], []⟩, false),
+      (connRecs (capInfo (evs6.map CEv.cap)) sess6).drop 2, by decide +kernel, by decide +kernel, by decide +kernel⟩
+  have h := tls12_capture_exact_full (fun _ _ _ => none) hashes hashes_lawful Cipher.Toy.prims Cipher.Toy.laws
+    fl6 (by decide) evs6 args6 hdesc times6 cv0 cevs6 cwf6 items6 ls0 ls0_wf
+    pm6 ports0 hpm6 rfl (by decide +kernel) (by decide +kernel) p60 pkts6.tail fp6
+    t0 (by decide) (by decide) rfl rfl rfl rfl .tls12 (by unfold Negotiated sessVer; decide)
+    (fun _ => ⟨rfl, rfl⟩) (by decide +kernel) sp0 (by decide +kernel) (by decide) cls0 (by decide +kernel)
+    ms0 rfl hl1 ho1 hsc hss hokc hoks hwr (by decide +kernel) (by rw [snd12_0]; exact wires6)
+    (fun h => by cases h) (fun _ => hc13)
+    (by decide) (by decide) (by decide) (by rw [snd12_0]; decide +kernel) hrec hus
+    (fun blk hblk => othersFit_of_ignored_c _ _ _ args6 _ fl6 evs6 pm6 ports0 hpm6 rfl hdesc
+      (fun e he => by
+        rcases foreign6 e he with rfl | rfl
+        · exact arp_ignoredC _
+        · exact badTcp_ignored _ rfl)
+      p60 pkts6.tail fp6 hcand blk hblk)
+  rw [snd12_0] at h
+  exact h
+
+/-- the exported server port is the mapped one: the block's frames travel between port 5555 and port 9443 -/
+example : TcpOut.exportedServerPort sess6.opts.keep (Pipeline.portmapFn sess6.opts.portmap) sess6.server.port = 9443 := by
+  decide +kernel
+
+end V6
+
 end TLX.Props.C01Full.Ex
